@@ -94,7 +94,7 @@ func runBtTrace(args []string) {
 	calls, probes := 0, 0
 	type pat struct{ p, long, short string }
 	// (pattern, probe haystack with the match at the far end, shorter fillers)
-	for _, pp := range []pat{{"ab", "xxxxxxxxab", "x"}, {"a[bc]+d", "zzzzzzzzzzzzabcbd", "zz"}, {"(a|b)*c", "ddddddddddababc", ""}}[:*npat] {
+	for pi, pp := range []pat{{"ab", "xxxxxxxxab", "x"}, {"a[bc]+d", "zzzzzzzzzzzzabcbd", "zz"}, {"(a|b)*c", "ddddddddddababc", ""}}[:*npat] {
 		re, _ := syntax.Parse(pp.p, syntax.Perl)
 		n, cerr := nfa.NewDefaultCompiler().CompileRegexp(re)
 		if cerr != nil {
@@ -134,10 +134,28 @@ func runBtTrace(args []string) {
 				if d == 0 {
 					break
 				}
-				if d == 2 || d == 4 {
-					bt.SearchAtWithState([]byte(""), 0, st) // advances the counter by 2
-				} else {
-					bt.SearchAtWithState([]byte("y"), 0, st) // advances it by 3
+				// The counter is advanced at two sites, each with its own overflow handling: reset() at the start of a
+				// search and the per-start-position bump inside the search loop.  Steer the overflow to the bump site
+				// (counter = 65534 when a search of "y" starts: reset -> 65535, first bump -> overflow) or to the reset
+				// site (counter = 65535 when a search starts), alternating over patterns and overflows.
+				target := 65534 // bump site
+				if (pi+wdone)%2 == 1 {
+					target = 65535 // reset site
+				}
+				toT := target - int(st.Generation)
+				switch {
+				case toT == 0:
+					bt.SearchAtWithState([]byte("y"), 0, st)
+				case toT > 0 && toT <= 6:
+					if toT == 2 || toT == 4 || toT == 5 {
+						bt.SearchAtWithState([]byte(""), 0, st) // advances the counter by 2
+					} else {
+						bt.SearchAtWithState([]byte("y"), 0, st) // advances it by 3
+					}
+				case d == 2 || d == 4:
+					bt.SearchAtWithState([]byte(""), 0, st)
+				default:
+					bt.SearchAtWithState([]byte("y"), 0, st)
 				}
 				calls++
 			}
